@@ -41,6 +41,14 @@ TARGETS['T9 n8 x1 cap4 shared parameters, batch m=2,1,4'] = {'scenario': 'batch'
     {'m': 2, 'cap': 4, 'values': ['5', '6'], 'rng': 'const', 'share_params': True, 'label': 'member 0', 'name_idx': 4},
     {'m': 1, 'cap': 4, 'values': ['7'], 'seeded': True, 'rng': 'const', 'share_params': True, 'label': 'member 1', 'name_idx': 5},
     {'m': 4, 'cap': 4, 'values': ['8', '9', '10', '11'], 'rng': 'const', 'share_params': True, 'label': 'member 2', 'name_idx': 6}], 'actions': ACTS}
+# argument OBJECTS with a history of their own: a witness whose openings were written through the public field after construction must behave
+# like a freshly constructed one with the same content (EQUIVALENT below); an invalid witness for commitments that were just proven with a
+# valid one must still be refused (what an earlier call validated says nothing about this call's arguments)
+TARGETS['T10 = T1 with the witness updated in place'] = {'scenario': 'batch', 'n': 8, 'x': 1, 'members': [{'m': 1, 'cap': 1, 'seeded': True, 'values': ['200'], 'promises': ['3'], 'rng': 'const', 'witness_in_place': True}], 'actions': ACTS}
+TARGETS['T11 = T1 with a wrong opening (refused)'] = {'scenario': 'batch', 'n': 8, 'x': 1, 'members': [{'m': 1, 'cap': 1, 'seeded': True, 'values': ['200'], 'promises': ['3'], 'rng': 'const',
+                                                                                                       'witness_tamper': {'op': 'blinding_delta', 'j': 0, 'k': 0}}], 'actions': ACTS}
+TARGETS['T12 = T2 with a wrong value in opening 1 (refused)'] = {'scenario': 'batch', 'n': 4, 'x': 2, 'members': [{'m': 2, 'cap': 4, 'values': ['7', '9'], 'rng': 'zero', 'witness_tamper': {'op': 'value_set', 'j': 1, 'value': '8'}}], 'actions': ACTS}
+EQUIVALENT = [('T1 n8 x1 seeded promise', 'T10 = T1 with the witness updated in place')]
 for _k, _t in TARGETS.items():
     if _t['scenario'] == 'batch':
         _t['repeat_prove'] = True
@@ -366,8 +374,23 @@ def run(ctx):
     for name in TARGETS:
         st = FRESH[name]['out']['steps'][0]['out']
         if TARGETS[name]['scenario'] == 'batch':
+            if '(refused)' in name:
+                ctx.expect(all(p['result'] != 'ok' for p in st['prove']), 'C18:fresh', '%s: the prover returns a proof for an invalid witness in a fresh process' % name, TARGETS[name], 'prover_accepts_invalid')
+                continue
             ok = all(p['result'] == 'ok' for p in st['prove']) and st.get('verify') and all(v['result'] == 'ok' for v in st['verify'])
             ctx.expect(ok, 'C18:fresh', '%s: the honest call fails in a fresh process' % name, TARGETS[name], 'honest_rejected')
+    # argument objects with different construction histories but the same content: same outputs
+    for a, b in EQUIVALENT:
+        P = Pair(FRESH[a]['core'], FRESH[b]['core'])
+        S = Session('z3', ctx.D.timeout_s)
+        S.T = P.T
+        try:
+            oa, ob = FRESH[a]['out']['steps'][0]['out'], FRESH[b]['out']['steps'][0]['out']
+            cfg_eq = {'scenario': 'history', 'steps': [TARGETS[b]], 'equivalent_to': TARGETS[a]}
+            for k in ('prove', 'verify'):
+                walk(ctx, S, P, oa.get(k), ob.get(k), ['%s vs %s' % (a.split(' ')[0], b.split(' ')[0]), k], cfg_eq, k)
+        finally:
+            S.close()
     mir_inventory(ctx)
     concrete_companions(ctx)
     parallel_cases(ctx, cases(ctx.tier), analyse)
